@@ -168,6 +168,6 @@ def register_offsets(reg):
         ensures=["result[0] == t['offset'] + (element.dim if (mt.restriction == '-' and is_form_argument(mt.terminal)) else 0)",
                  "result[1] == t['stride']"],
         properties=["C02", "C05", "C08"], modular=False, name="build_optimized_tables#offset",
-        mutants=[("cell_offset = element.dim", "cell_offset = t['stride'] * element.dim"),
-                 ("mt.restriction == '-' and isinstance(mt.terminal, ufl.classes.FormArgument)", "mt.restriction == '-'"),
-                 ("offset = cell_offset + t['offset']", "offset = cell_offset")]))
+        mutants=[("cell_offset = element.dim", 'cell_offset = t["stride"] * element.dim'),
+                 ('mt.restriction == "-" and isinstance(mt.terminal, ufl.classes.FormArgument)', 'mt.restriction == "-"'),
+                 ('offset = cell_offset + t["offset"]', "offset = cell_offset")]))
